@@ -17,9 +17,9 @@ func init() {
 		"Decides: with synchronous WARC writing every path from a successful client.Do to SetStatus(ItemArchived) waits on the feedback channel that was made in the same iteration and stored in that very request's context under the key the warc module reads (R-WARC-WAIT); ItemArchived has that single writer (R-ARCHIVED-ONLY-HERE); ProcessBody returns nil only after draining the response body to EOF (R-BODY-DRAIN); the discard hook handed to both WARC clients is the chain built from the Cloudflare and --warc-discard-status hooks, and the chain discards when any hook does (R-DISCARD-CHAIN). The default discard hooks read only wire-level response fields, because the WARC writer evaluates them on a response re-parsed with a nil request — a convention read out of the linked warc module (R-DISCARD-HOOK-INPUT). A response that is retried or refused is drained to EOF, unconditionally and without a cap, before its body is closed, so the record the writer tees is complete (R-RESP-CLOSE).",
 		"Not decided: byte-exactness of payloads, record framing, gzip member independence, revisit logic — all inside the third-party warc module and functions of body bytes.",
 	}
-	register(&core.Rule{ID: "R-WARC-WAIT", Props: []string{"C02", "C04"}, Doc: "fetch closure: on the synchronous path every path from client.Do(req) to SetStatus(ItemArchived) receives from the channel created in that iteration and placed in req's context under key \"feedback\"; the key equals the one the linked warc module looks up; the wait is conditional on nothing but WARCWriteAsync", Run: ruleWarcWait})
+	register(&core.Rule{ID: "R-WARC-WAIT", Props: []string{"C02", "C04", "C03"}, Doc: "fetch closure: on the synchronous path every path from client.Do(req) to SetStatus(ItemArchived) receives from the channel created in that iteration and placed in req's context under key \"feedback\"; the key equals the one the linked warc module looks up; the wait is conditional on nothing but WARCWriteAsync", Run: ruleWarcWait})
 	register(&core.Rule{ID: "R-ARCHIVED-ONLY-HERE", Props: []string{"C02"}, Doc: "SetStatus(ItemArchived) has exactly one call site in the program, in the fetch closure that R-WARC-WAIT covers", Run: ruleArchivedOnlyHere})
-	register(&core.Rule{ID: "R-BODY-DRAIN", Props: []string{"C02", "C16"}, Doc: "ProcessBody: every `return nil` is preceded on all paths by the full-drain helper applied to Response.Body; that helper returns nil only from its err==io.EOF branch", Run: ruleBodyDrain})
+	register(&core.Rule{ID: "R-BODY-DRAIN", Props: []string{"C02", "C16", "C04"}, Doc: "ProcessBody: every `return nil` is preceded on all paths by the full-drain helper applied to Response.Body; that helper returns nil only from its err==io.EOF branch", Run: ruleBodyDrain})
 	register(&core.Rule{ID: "R-DISCARD-HOOK-INPUT", Props: []string{"C02"}, Doc: "the WARC writer calls the discard hook on a response re-parsed from the recorded bytes (http.ReadResponse(r, nil), read from the linked warc module): the default hooks may therefore depend only on what the wire carries (status, protocol, headers, body, lengths) — never on resp.Request or resp.TLS, which are nil there", Run: ruleDiscardHookInput})
 	register(&core.Rule{ID: "R-DISCARD-CHAIN", Props: []string{"C02"}, Doc: "startWARCWriter stores Builder.Build() of a builder with AddDefaultHooks into HTTPClientSettings.DiscardHook for both clients; AddDefaultHooks adds the Cloudflare and warc-discard-status hooks; the built chain returns true as soon as any hook does; the status hook tests resp.StatusCode against config.WARCDiscardStatus", Run: ruleDiscardChain})
 }
@@ -136,6 +136,18 @@ func ruleWarcWait(r *core.Reporter) {
 		return
 	}
 	mc := mcs[0]
+	// capacity: the writer's signal is a plain send (read out of the linked module); an attempt whose response is
+	// written but then retried or failed is never waited for, so the send needs a buffer slot or the writer
+	// goroutine blocks for ever — and with it Close() at stop
+	if sendPos := warcBlockingFeedbackSend(p); sendPos != "" {
+		if n, ok := ir.ConstInt(mc.Size); ok && n >= 1 {
+			r.Held(name+"/feedback-capacity", 1, "feedback channel has capacity %d; the warc writer signals with a plain send (%s) that must not depend on a receiver", n, sendPos)
+		} else {
+			r.Violated(name+"/feedback-capacity", p.InstrPos(mc), "the per-attempt feedback channel is unbuffered, but the warc writer signals with a plain blocking send (%s) and the attempts that are retried or fail after a response never receive: the writer goroutine blocks for ever (no further record is written, WaitGroup/Close at stop hang)", sendPos)
+		}
+	} else {
+		r.Held(name+"/feedback-capacity", 0, "the linked warc module has no blocking send on a feedback channel")
+	}
 	// key agreement with the warc module
 	warcKeys := warcFeedbackKeys(p)
 	if len(warcKeys) == 0 {
@@ -668,8 +680,30 @@ func ruleDiscardChain(r *core.Reporter) {
 			}
 		}
 	}
+	// the walk over the hooks is not conditional on anything but the chain being non-empty: a fast path that answers
+	// "keep" without asking the hooks (status class, method, size …) disables --warc-discard-status for those responses
+	if okChain {
+		var foreign []ir.IfInfo
+		for _, ii := range ir.Ifs(chain) {
+			a := ii.Atom
+			if a.V != nil && a.V == verdict {
+				continue
+			}
+			lenOp := func(v ssa.Value) bool {
+				c, ok := v.(*ssa.Call)
+				return ok && ir.CallName(c.Common()) == "builtin.len"
+			}
+			if a.V == nil && (lenOp(a.X) || lenOp(a.Y)) {
+				continue // loop bound, empty-chain test
+			}
+			foreign = append(foreign, ii)
+		}
+		if indep, how := ir.IndependentOf(ir.Entry(chain), hookCall, foreign, nil); !indep {
+			okChain, why = false, "the hooks are not consulted for every response: "+how+" — the operator's discard rules are skipped for those responses"
+		}
+	}
 	if okChain && loopCoversAll(chain, hookCall) {
-		r.Held("Builder.Build/chain", 1, "every hook is consulted until one discards; a discarding hook makes the chain return true")
+		r.Held("Builder.Build/chain", 1, "every hook is consulted for every response until one discards; a discarding hook makes the chain return true")
 	} else {
 		if why == "" {
 			why = "not every hook of the chain is consulted"
@@ -898,4 +932,45 @@ func ruleDiscardHookInput(r *core.Reporter) {
 			r.Held("hook/"+shortName(ir.FullName(h)), 1, "depends only on wire-level fields of the response")
 		}
 	}
+}
+
+// warcBlockingFeedbackSend: position of a send on RecordBatch.FeedbackChan outside a select in the linked warc module ("" if none).
+func warcBlockingFeedbackSend(p *core.Program) string {
+	pos := ""
+	scan := func(fn *ssa.Function) {
+		allInstrs(fn, func(in ssa.Instruction) {
+			snd, ok := in.(*ssa.Send)
+			if !ok {
+				return
+			}
+			if _, f, okf := fieldOfLoad(snd.Chan); okf && f == "FeedbackChan" {
+				pos = p.InstrPos(in)
+			}
+		})
+	}
+	for _, pk := range p.SSA.AllPackages() {
+		if pk.Pkg.Path() != "github.com/CorentinB/warc" {
+			continue
+		}
+		for _, m := range pk.Members {
+			switch x := m.(type) {
+			case *ssa.Function:
+				for _, f := range withAnon(x) {
+					scan(f)
+				}
+			case *ssa.Type:
+				for _, t := range []types.Type{x.Type(), ptrTo(x)} {
+					ms := p.SSA.MethodSets.MethodSet(t)
+					for i := 0; i < ms.Len(); i++ {
+						if f := p.SSA.MethodValue(ms.At(i)); f != nil {
+							for _, ff := range withAnon(f) {
+								scan(ff)
+							}
+						}
+					}
+				}
+			}
+		}
+	}
+	return pos
 }
